@@ -56,7 +56,8 @@ def make_case(i, rng, tier):
         inp = common.gen_input(rng, t, k)
         if not inp["data"] or len(inp["data"]) > 80:
             return None
-        return {"mode": "type", "data": inp["data"].hex(), "root": inp["root"], "cc": inp["cc"], "enc": inp["enc"], "label": inp["label"]}
+        return {"mode": "type", "data": inp["data"].hex(), "root": inp["root"], "cc": inp["cc"], "enc": inp["enc"], "label": inp["label"],
+                "in": rng.choice(("binary", "binary", "hex")), "alias": rng.random() < 0.3, "split": rng.random() < 0.2}
     # convert
     fmt = rng.choice(("binary", "binary", "hex", "swtpm-log", "pcapng", "auto"))
     if fmt in ("swtpm-log", "pcapng", "auto") or rng.random() < 0.5:
@@ -98,7 +99,7 @@ def make_case(i, rng, tier):
     return {"mode": "convert", "in": fmt, "out": rng.choice(("pretty", "pretty", "events", "binary")),
             "root": inp["root"], "cc": inp["cc"], "blob": blob.hex(), "how": how, "cuts": cuts, "family": fam,
             "chunks": [rng.choice((1, 2, 5, 16, 4096))], "label": inp["label"], "subprocess": rng.random() < 0.1,
-            "explicit_in": rng.random() < 0.8}
+            "explicit_in": rng.random() < 0.8, "alias": rng.random() < 0.15}
 
 
 def _typo(name, how):
@@ -169,7 +170,7 @@ def _convert(case, res, tmp):
     except Exception as e:
         res.count("skipped:library-raises:%s" % type(e).__name__)
         return
-    argv = ["convert"]
+    argv = ["co" if case.get("alias") else "convert"]
     if case["in"] != "auto" or not case.get("explicit_in", True):
         argv += ["--in", case["in"]] if case["in"] != "auto" else []
     elif case["in"] == "auto" and case.get("explicit_in", True):
@@ -260,9 +261,15 @@ def _type(case, res, tmp):
     from tpmstream.spec.commands import CommandResponseStream, Response
     from tpmstream.spec.structures.constants import TPM_CC
     data = bytes.fromhex(case["data"])
-    path = _write(tmp, "input.bin", data)
-    status, out, err = cli.run_inprocess(["type", "--in", "binary", path])
-    label = "type on %s (%d bytes)" % (case["label"], len(data))
+    fmt = case.get("in", "binary")
+    blob = data if fmt == "binary" else data.hex().encode() + b"\n"
+    if case.get("split") and len(blob) > 1:
+        paths = [_write(tmp, "a.bin", blob[:len(blob) // 2]), _write(tmp, "b.bin", blob[len(blob) // 2:])]
+    else:
+        paths = [_write(tmp, "input.bin", blob)]
+    status, out, err = cli.run_inprocess(["ty" if case.get("alias") else "type", "--in", fmt] + paths)
+    label = "type --in %s on %s (%d bytes, %d file(s))" % (fmt, case["label"], len(data), len(paths))
+    res.count("type:in:" + fmt)
     exp = []
     for t in all_types:
         if t is CommandResponseStream or t.__name__.startswith("TPMU"):
